@@ -1,4 +1,4 @@
-import Gp.Lemmas.PoolAsm
+import Gp.Lemmas.PoolAsmN
 import Gp.Lemmas.PoolReasm
 /-
   C12 — Assemblers sharing one stream pool are safe under every interleaving.
@@ -88,6 +88,67 @@ theorem right_stream_counterexample : ¬ right_stream_full := by
   have hr := Sys.reachable_run (sys cxProgs) .init cxSched
   have h1 := (h cxProgs _ hr).1 1 0 0 ⟨0, false⟩ 1 (by decide)
   revert h1; decide
+
+/-- right_stream_partial: along every execution in which no connection object is recycled while another
+    goroutine still points to it (`NoStale`: the precise negation of the defect), every delivered and every
+    queued packet goes to a stream created for its own key — for any number of goroutines and packets. -/
+theorem right_stream_partial (progs : Tid → List Op) (s : State) (h : (sys progs).ReachableR NoStale s) :
+    RightStream s := by
+  have hi := invN_reachableR progs s h
+  exact ⟨fun sid t i k n hm => (hi.rs1 sid t i k n hm).2, fun sid t i k hm => (hi.rs2 sid t i k hm).2⟩
+
+/-- The hypothesis of the partial theorems is satisfiable by a non-trivial run: two goroutines on the same
+    key, one creates the connection, both deliver, the FIN closes, completes and removes it. -/
+example : ∃ s, (sys (fun t => if t = 0 then [.pkt ⟨0, false⟩ .syn, .pkt ⟨0, false⟩ .fin] else if t = 1 then [.pkt ⟨0, false⟩ .syn] else [])).ReachableR NoStale s
+    ∧ Ev.deliv 0 1 0 ⟨0, false⟩ 1 ∈ s.log ∧ Ev.complete 0 0 ∈ s.log ∧ s.conns = [] := by
+  refine ⟨Sys.runG (sys _) noRecycleB (sys _).init [0, 0, 0, 1, 0, 1, 1, 0, 0, 0, 0],
+    Sys.reachableR_runG (sys _) noRecycleB noStale_of_noRecycleB .init _, ?_, ?_, ?_⟩
+  all_goals decide
+
+/-- kept_stream_completed_once at full strength.  FALSE for the code as written. -/
+def kept_stream_completed_once_full : Prop :=
+  ∀ (progs : Tid → List Op) (s : State), (sys progs).Reachable s → KeptOnce s
+
+/-- Four goroutines.  0: SYN of 1a, SYN of 0a, FIN of 0a;  1: SYN of 1a;  2: SYN of 0a;  3: FIN of 0a. -/
+def cx2Progs : Tid → List Op
+  | 0 => [.pkt ⟨1, false⟩ .syn, .pkt ⟨0, false⟩ .syn, .pkt ⟨0, false⟩ .fin]
+  | 1 => [.pkt ⟨1, false⟩ .syn]
+  | 2 => [.pkt ⟨0, false⟩ .syn]
+  | 3 => [.pkt ⟨0, false⟩ .fin]
+  | _ => []
+
+/-- 3 creates 0a's connection object; 2 and 0 look it up (stale pointers to be); 1 misses 1a under the read
+    lock; 0 creates 1a's connection; 3's FIN closes 0a's object and frees it; 1's double-checked insert pops
+    that object, resets it for 1a and DROPS it (1a already has an entry); through their stale pointers 2
+    then 0 deliver to the dropped object, 0's FIN closes it and `remove` deletes `conns[1a]` — the entry of
+    the live connection created by 0, whose stream (2) is now unreachable: never completed, not even by FlushAll. -/
+def cx2Sched : List Tid := [3, 3, 2, 1, 0, 0, 0, 0, 0, 0, 0, 3, 3, 0, 3, 1, 2, 2, 1, 1, 0, 0, 0]
+
+theorem kept_stream_completed_once_counterexample : ¬ kept_stream_completed_once_full := by
+  intro h
+  have hr := Sys.reachable_run (sys cx2Progs) .init cx2Sched
+  obtain ⟨c, h1, _⟩ := (h cx2Progs _ hr 2 (by decide)).2 (by decide)
+  have h2 : ((sys cx2Progs).run (sys cx2Progs).init cx2Sched).conns.get
+      (((sys cx2Progs).run (sys cx2Progs).init cx2Sched).skey 2) = none := by decide
+  rw [h2] at h1; cases h1
+
+/-- kept_stream_completed_once_partial: without stale recycling, every kept stream is completed at most
+    once and, until then, stays attached to an open connection that the pool holds under the stream's key. -/
+theorem kept_stream_completed_once_partial (progs : Tid → List Op) (s : State)
+    (h : (sys progs).ReachableR NoStale s) : KeptOnce s := by
+  have hi := invN_reachableR progs s h
+  intro sid hk
+  exact ⟨hi.b5 sid, hi.n7 sid hk⟩
+
+/-- Without stale recycling a thread that is about to lock a connection holds a pointer to the object of
+    its own key (the stale-pointer condition itself, as an invariant). -/
+theorem pointer_key_partial (progs : Tid → List Op) (s : State) (h : (sys progs).ReachableR NoStale s)
+    (t : Tid) (c : CId) (k : Key) (kind : Kind) (rest : List Op)
+    (hpc : (s.thr t).pc = .lock c) (hsn : (s.thr t).snap = none) (hp : (s.thr t).prog = .pkt k kind :: rest) :
+    (s.obj c).key = k := by
+  have := (invN_reachableR progs s h).n4 t c hpc hsn
+  rw [hp, headKey_pkt] at this
+  exact (Option.some.inj this).symm
 
 end Asm
 /-! ## reassembly -/
